@@ -6,7 +6,8 @@ import numpy as np
 from common import *
 
 ID = 'C14'
-COQ_FILES = ['Base/Mat.v', 'Base/SumQ.v', 'Base/ListX.v', 'Model/Partition.v', 'Proofs/Partition.v', 'Properties/C14.v']
+COQ_FILES = ['Base/Mat.v', 'Base/SumQ.v', 'Base/ListX.v', 'Model/Partition.v', 'Model/PartitionReal.v', 'Proofs/Partition.v',
+             'Proofs/PartitionJoint.v', 'Proofs/PartitionVI.v', 'Properties/C14.v']
 THEOREMS = ['C14_relabel_injective_invariant', 'C14_relabel_canonical', 'C14_injective_same_part',
             'C14_participation_coef_partition_only', 'C14_participation_coef_formula',
             'C14_participation_coef_sign_partition_only', 'C14_module_degree_zscore_partition_only',
@@ -14,7 +15,7 @@ THEOREMS = ['C14_relabel_injective_invariant', 'C14_relabel_canonical', 'C14_inj
             'C14_modularity_dir_partition_only', 'C14_modularity_und_sign_partition_only',
             'C14_agreement_counts', 'C14_agreement_partition_only', 'C14_partition_distance_symmetric',
             'C14_partition_distance_partition_only', 'C14_partition_distance_same', 'C14_VIn_nonneg',
-            'C14_VIn_zero_same', 'C14_MIn_one_same', 'C14_partition_distance_exactly_when', 'C14_VIn_range_partial', 'C14_ci2ls_ls2ci_inverse',
+            'C14_VIn_zero_same', 'C14_MIn_one_same', 'C14_partition_distance_exactly_when', 'C14_VIn_range_any_log', 'C14_VIn_range', 'C14_ci2ls_ls2ci_inverse',
             'C14_ci2ls_blocks']
 RULE = ('every set partition of n<=5 nodes (n<=6 thorough), written with restricted-growth labels 1..K, x the relabellings '
         '{zero-based, negative, gaps, large (2^40+), permuted block order, random injective mix} x random matrices with small '
